@@ -11,6 +11,9 @@ CONSTANTS
   DirAtStart = FALSE
   PersistMkdir = FALSE
   LoaderExact = TRUE
+  RefreshTemp = "leave"
+  Faults = {}
+  Cleanup = "temp"
 SPECIFICATION SpecR
 INVARIANTS Converged
 PROPERTIES Terminates
